@@ -4,7 +4,7 @@ LEVEL = 'exploration'
 RULE = ('the real emitters (amd64 entry jump, trampoline return jump, interface stub; arm64 entry jump and interface stub compiled from the '
         'current /repo files) are called on generated (from,to) addresses and the emitted bytes are decoded by the reference decoders and '
         'interpreted symbolically; every value of every 16-bit lane over several bases (exhaustive per lane), every offset in a band around '
-        'the +-2GiB rel32 decision boundary, plus random pairs; distinct = (emitter, lane / band side, form chosen) classes')
+        'the +-2GiB rel32 decision boundary, plus random pairs; the sequence actually installed at a function entry, decoded from memory while the function is diverted again and again (values sharing one code address) with and without restoring in between; the trampoline return jump built by the real builder for every layout of instruction boundaries in the first bytes of a function (all sequences of 1-9 byte instructions); distinct = (emitter, lane / band side, form chosen) classes')
 
 
 def run(ctx):
@@ -23,6 +23,9 @@ def run(ctx):
     f = dict(base); f.update(core.dir_files('harness/c15/armiface', 'zzverif/c15armiface'))
     f['zzverif/c15armiface/jmp_a64_copy.go'] = os.path.join(core.REPO, 'internal/iface/jmp_arm64.go')
     jobs.append((ctx.build('c15-armiface', core.MODPATH + '/zzverif/c15armiface', f), 'TestC15Arm64Iface'))
+    jobs.append((jobs[0][0], 'TestC15Amd64Installed'))
+    jobs.append((jobs[0][0], 'TestC15Amd64Return'))
+    jobs[0] = (jobs[0][0], 'TestC15Amd64Patch$')
     ctx.parallel([dict(binary=b, run=t, env={'GOGC': '2000'}, timeout=2400 if ctx.thorough else 400, what=t) for b, t in jobs])
     ctx.extra_cov['exhaustive_per_lane'] = True
     ctx.assumptions += ['reference decoders = golang.org/x/arch x86asm/arm64asm vendored in GOROOT',
